@@ -1,6 +1,7 @@
 package main
 
 import (
+	"path/filepath"
 	"bytes"
 	"fmt"
 	"go/ast"
@@ -34,6 +35,7 @@ type World struct {
 	globalIDs  map[*ssa.Global]int
 	funcsByNm  map[string]*ssa.Function
 	allFuncs   []*ssa.Function
+	implicit   []string // functions that got the default sweep contract on this run
 	mods       map[*ssa.Function]*modInfo
 	files      map[string]*ast.File
 	siteNames  map[siteKey]string
@@ -92,11 +94,20 @@ func loadWorld(repoDir string) (*World, error) {
 	for i, g := range gl {
 		w.globalIDs[g] = i + 1
 	}
-	cs, err := loadContracts(repoDir)
+	cs, err := loadContracts(repoDir, nil)
 	if err != nil {
 		return nil, err
 	}
 	w.contracts = cs
+	// functions of the current tree that no contract file mentions (code added
+	// after the contract files were written) get the default sweep contract
+	if txt := w.implicitContracts(); txt != "" {
+		cs, err = loadContracts(repoDir, map[string]string{"<implicit sweep contracts>": txt})
+		if err != nil {
+			return nil, err
+		}
+		w.contracts = cs
+	}
 	for n, g := range cs.Ghosts {
 		switch g.Sort {
 		case "Int":
@@ -1159,4 +1170,289 @@ func sortCallNames(c *ssa.CallCommon) []string {
 		}
 	}
 	return nil
+}
+
+// implicitContracts: the zero-annotation sweep contract, generated on every run
+// from the current tree for each named function or method that has no contract
+// in /repo/verif_contracts*.go. Same defaults as tools/genast.py (ast.go,
+// utils.go, sanitize.go: C13 safety + read-only frame) and a safety-only
+// contract for the other files (C04).
+func (w *World) implicitContracts() string {
+	var b strings.Builder
+	astFiles := map[string]bool{"ast.go": true, "utils.go": true, "sanitize.go": true}
+	for _, fn := range w.allFuncs {
+		if fn.Parent() != nil || fn.Synthetic != "" || len(fn.Blocks) == 0 {
+			continue
+		}
+		name := w.funcName(fn)
+		if strings.HasPrefix(name, "init") || strings.HasPrefix(name, "spec_") {
+			continue
+		}
+		if _, ok := w.contracts.Funcs[name]; ok {
+			continue
+		}
+		file := filepath.Base(w.fset.Position(fn.Pos()).Filename)
+		if strings.HasPrefix(file, "verif_") || strings.HasSuffix(file, "_test.go") {
+			continue
+		}
+		if fn.Name() == "node" || fn.Name() == "stmt" || fn.Name() == "expr" || fn.Name() == "literal" || fn.Name() == "source" {
+			continue
+		}
+		w.implicit = append(w.implicit, name)
+		fmt.Fprintf(&b, "//@ func %s\n", name)
+		var reqs []string
+		if recv := fn.Signature.Recv(); recv != nil {
+			if _, isPtr := recv.Type().(*types.Pointer); isPtr && len(fn.Params) > 0 && fn.Params[0].Name() != "_" && fn.Params[0].Name() != "" {
+				reqs = append(reqs, fn.Params[0].Name()+" != nil")
+			}
+		}
+		if !ast.IsExported(fn.Name()) {
+			start := 0
+			if fn.Signature.Recv() != nil {
+				start = 1
+			}
+			for _, p := range fn.Params[start:] {
+				if pt, ok := p.Type().(*types.Pointer); ok {
+					if nt, ok := pt.Elem().(*types.Named); ok && nt.Obj().Pkg() == w.pkg.Pkg {
+						if _, isStruct := nt.Underlying().(*types.Struct); isStruct && p.Name() != "_" {
+							reqs = append(reqs, p.Name()+" != nil")
+						}
+					}
+				}
+			}
+		}
+		if astFiles[file] {
+			b.WriteString("//@   props C13\n//@   safety C13\n//@   astparams\n")
+			if w.canInline(fn) {
+				b.WriteString("//@   inline\n")
+			}
+			b.WriteString("//@   modifies @ast\n//@   frameprops C14 C17\n")
+		} else {
+			b.WriteString("//@   props C04\n//@   safety C04\n")
+			if w.canInline(fn) {
+				b.WriteString("//@   inline\n")
+			}
+		}
+		for _, r := range reqs {
+			fmt.Fprintf(&b, "//@   requires %s\n", r)
+		}
+	}
+	return b.String()
+}
+
+// loopFrame: which heaps the body of a loop can only write at objects allocated
+// after the loop was entered. For such a heap every object that existed at loop
+// entry keeps its value across the loop-head havoc (except the backing arrays
+// of the loop-carried local slices the body appends to, which are returned as
+// head phis: the array they refer to at loop entry is excepted).
+//
+//   store through an Alloc made inside the loop                    fresh
+//   store anywhere else                                            not fresh
+//   append to a local slice carried by a head phi of this loop     fresh except that phi's entry array
+//   any other append / copy / delete / map update                  not fresh
+//   static callee with a verified contract: heap h is fresh iff the callee's
+//     modifies clause allows h only through "fresh"
+//   every other call (inlined, dynamic, closure, library)          not fresh for all it may write
+func (w *World) loopFrame(fn *ssa.Function, li *loopInfo) map[string][]*ssa.Phi {
+	cand := map[string][]*ssa.Phi{}
+	unsafe := map[string]bool{}
+	why := ""
+	mark := func(names []string, ok bool, phi *ssa.Phi) {
+		for _, n := range names {
+			if !ok {
+				if os.Getenv("GOVC_DEBUGLF") != "" && !unsafe[n] {
+					fmt.Fprintf(os.Stderr, "  loop%d unsafe %s: %s\n", li.ordinal, n, why)
+				}
+				unsafe[n] = true
+				continue
+			}
+			if _, have := cand[n]; !have {
+				cand[n] = nil
+			}
+			if phi != nil {
+				dup := false
+				for _, p := range cand[n] {
+					if p == phi {
+						dup = true
+					}
+				}
+				if !dup {
+					cand[n] = append(cand[n], phi)
+				}
+			}
+		}
+	}
+	allocInLoop := func(v ssa.Value) bool {
+		for {
+			switch x := v.(type) {
+			case *ssa.Alloc:
+				return li.blocks[x.Block()]
+			case *ssa.FieldAddr:
+				v = x.X
+			case *ssa.IndexAddr:
+				if _, isPtr := x.X.Type().Underlying().(*types.Pointer); isPtr {
+					v = x.X
+				} else if sl, ok := x.X.(*ssa.Slice); ok {
+					v = sl.X
+				} else {
+					return false
+				}
+			default:
+				return false
+			}
+		}
+	}
+	// headPhi: the head phi of this loop that a slice value derives from through
+	// inner phis and appends (cycles through the value itself are ignored).
+	inProgress := map[ssa.Value]bool{}
+	cyc := &ssa.Phi{}
+	var headPhi0 func(v ssa.Value) *ssa.Phi
+	headPhi0 = func(v ssa.Value) *ssa.Phi {
+		if inProgress[v] {
+			return cyc
+		}
+		inProgress[v] = true
+		defer delete(inProgress, v)
+		switch x := v.(type) {
+		case *ssa.Phi:
+			if x.Block() == li.head {
+				return x
+			}
+			if !li.blocks[x.Block()] {
+				return nil
+			}
+			var res *ssa.Phi
+			for _, e := range x.Edges {
+				p := headPhi0(e)
+				if p == cyc {
+					continue
+				}
+				if p == nil || (res != nil && res != p) {
+					return nil
+				}
+				res = p
+			}
+			return res
+		case *ssa.Call:
+			if b, ok := x.Common().Value.(*ssa.Builtin); ok && b.Name() == "append" && li.blocks[x.Block()] {
+				return headPhi0(x.Common().Args[0])
+			}
+		case *ssa.ChangeType:
+			return headPhi0(x.X)
+		}
+		return nil
+	}
+	headPhi := func(v ssa.Value, _ int) *ssa.Phi {
+		p := headPhi0(v)
+		if p == cyc {
+			return nil
+		}
+		return p
+	}
+	for _, b := range fn.Blocks {
+		if !li.blocks[b] {
+			continue
+		}
+		for _, ins := range b.Instrs {
+			why = ins.String()
+			switch in := ins.(type) {
+			case *ssa.Store:
+				p, sh, ok := addrPath(in.Addr)
+				if !ok {
+					return nil
+				}
+				mark(leafNames(p, sh), allocInLoop(in.Addr), nil)
+			case *ssa.MapUpdate:
+				mt := in.Map.Type().Underlying().(*types.Map)
+				mm, isMake := in.Map.(*ssa.MakeMap)
+				ok := isMake && li.blocks[mm.Block()]
+				names := []string{mapPath(mt) + "#has", mapPath(mt) + "#len"}
+				for _, l := range leavesOf(shapeOf(mt.Elem())) {
+					names = append(names, mapPath(mt)+"#val"+l.Path)
+				}
+				mark(names, ok, nil)
+			case *ssa.Go, *ssa.Defer, *ssa.Send, *ssa.Select:
+				return nil
+			case ssa.CallInstruction:
+				c := in.Common()
+				if bi, ok := c.Value.(*ssa.Builtin); ok {
+					switch bi.Name() {
+					case "append", "copy":
+						if st, ok := c.Args[0].Type().Underlying().(*types.Slice); ok {
+							names := leafNames(elemPath(st.Elem()), shapeOf(st.Elem()))
+							if bi.Name() == "append" && sliceIsLocal(c.Args[0], map[ssa.Value]bool{}) {
+								if ph := headPhi(c.Args[0], 0); ph != nil {
+									mark(names, true, ph)
+									continue
+								}
+							}
+							mark(names, false, nil)
+						}
+					case "delete":
+						mt := c.Args[0].Type().Underlying().(*types.Map)
+						mark([]string{mapPath(mt) + "#has", mapPath(mt) + "#len"}, false, nil)
+					}
+					continue
+				}
+				tmp := &modInfo{names: map[string]bool{}, dynParams: map[int]bool{}}
+				w.calleeEffect(fn, c, tmp, map[*ssa.Function]bool{})
+				if tmp.top || len(tmp.dynParams) > 0 {
+					return nil
+				}
+				var fc *FuncContract
+				if callee := c.StaticCallee(); callee != nil && !c.IsInvoke() && (callee.Pkg == w.pkg) {
+					fc = w.contracts.Funcs[w.funcName(callee)]
+					if fc != nil && (fc.Skip != "" || fc.Inline || !fc.HasModifies) {
+						fc = nil
+					}
+				}
+				for n := range tmp.names {
+					ok := false
+					if fc != nil {
+						ok = !modifiesAllowsOld(fc, c.StaticCallee(), n)
+					}
+					mark([]string{n}, ok, nil)
+				}
+			}
+		}
+	}
+	out := map[string][]*ssa.Phi{}
+	for n, phis := range cand {
+		if !unsafe[n] {
+			out[n] = phis
+		}
+	}
+	return out
+}
+
+// modifiesAllowsOld: does the modifies clause let the function write heap n at an
+// object that existed before the call (anything but "fresh")?
+func modifiesAllowsOld(fc *FuncContract, callee *ssa.Function, n string) bool {
+	for _, m := range fc.Modifies {
+		if m == "fresh" {
+			continue
+		}
+		pre := strings.TrimSuffix(m, ".*")
+		if strings.HasSuffix(m, ".*") {
+			isParam := false
+			for _, p := range callee.Params {
+				if p.Name() == pre {
+					isParam = true
+					if pt, ok := p.Type().Underlying().(*types.Pointer); ok {
+						tp := pathForType(pt.Elem())
+						if n == tp || strings.HasPrefix(n, tp+".") {
+							return true
+						}
+					}
+				}
+			}
+			if isParam {
+				continue
+			}
+		}
+		if n == pre || strings.HasPrefix(n, pre+".") || strings.HasPrefix(n, pre+"[") || strings.HasPrefix(n, pre+"#") {
+			return true
+		}
+	}
+	return false
 }
